@@ -16,7 +16,7 @@ echo "== demo WITH change"; go test -vet=off -count=1 -run 'TestSeeded' ./$PKG 2
 cd /; git -C /repo worktree remove --force $WT
 echo "== govc check -p $PROP on /repo with the change applied"
 git -C /repo apply $SRC/patch.diff || exit 2
-(cd /verif && ./bin/govc check -p $PROP -no-evidence -verif /tmp/seedv-$ID 2>&1 | grep "VIOLATION\|^property\|KNOWN" | cut -c1-260 | head -8) ; 
+mkdir -p /tmp/seedv-$ID; cp /verif/known_findings.txt /tmp/seedv-$ID/; (cd /verif && ./bin/govc check -p $PROP -no-evidence -verif /tmp/seedv-$ID 2>&1 | grep "VIOLATION\|^property\|KNOWN" | cut -c1-260 | head -8) ; 
 git -C /repo checkout -- . 
 mkdir -p /verif/seeded/$ID; cp $SRC/patch.diff /verif/seeded/$ID/; cp $DEMO /verif/seeded/$ID/$(basename $DEMO).txt; cp $SRC/notes.txt /verif/seeded/$ID/notes.txt 2>/dev/null
 rm -rf /tmp/seedv-$ID
